@@ -376,6 +376,9 @@ def dry_runs():
     yield 'L3_exact', dict(P='ab', cut=0, D='c', s1='bc', s2='zz', W=None, fresh=True)
 
 
+PROBES = ['expect_core']      # representation probes (harness/probes.py) this harness depends on
+
+
 MANIFEST_ENTRY = {
     'level_text': 'Bounded symbolic verification of the real Expecter/searcher/SpawnBase code: every step of an '
                   'expect-family call (existing_data, new_data, eof, timeout, errored, buffer setter) is executed '
